@@ -11,6 +11,7 @@
 //	l3 withdraw <zone>                 the parent removes the delegation (old servers stay alive)
 //	l3 repoint <zone> <same|new> <nsttl> <dsttl>   the parent re-points the zone to new servers with new data
 //	l3 behave <zone> <honest|nsauth|nschange>       what the (current) child says about itself
+//	l3 qcross <zone> <ttl> [cd]        a second question crosses the first one's referral for <zone>; the parent raises the TTL
 //	l3 qrace <zone> [cd]               sr.<zone> is asked while the zone's lease runs out (self-referral race)
 //	l3 slowref sec= delay= act=        self-contained real-time case (slow child referral, 1 s ancestor lease)
 //	l3 audit                           only run the state audit
@@ -114,6 +115,7 @@ type scenario struct {
 
 	alias *inst
 	twoNS bool // the deepest delegation has a glued and a glue-less name server
+	cross *crossSpec
 	soft string // known-finding verdict of the last audit (reported only if nothing else failed)
 }
 
@@ -298,9 +300,60 @@ func (s *scenario) hook(i *inst) {
 			return 0
 		},
 		Tamper: func(q dns.Question, honest *dns.Msg, tcp bool) *dns.Msg {
+			honest = s.crossOver(i, q, honest)
 			s.observe(i, honest)
 			return s.tamper(i, q, honest)
 		}})
+}
+
+// crossOver (l3 qcross): while this server's referral for the crossed zone is "on the
+// wire", another client question for a name in that zone is resolved to the end (so the
+// zone's delegation is now cached under the referral the parent gave THEN), and the parent
+// raises the delegation's TTLs; the referral the waiting resolution finally receives is the
+// parent's new, longer one. That resolution descends through the CACHED delegation, so
+// everything it learns ends with the cached lease, not with the fresher referral's.
+func (s *scenario) crossOver(i *inst, q dns.Question, honest *dns.Msg) *dns.Msg {
+	c := s.cross
+	if c == nil || c.from != i || honest == nil || honest.Authoritative || len(honest.Answer) > 0 {
+		return honest
+	}
+	isRef := false
+	for _, rr := range honest.Ns {
+		if ns, ok := rr.(*dns.NS); ok && lcn(ns.Hdr.Name) == c.child {
+			isRef = true
+		}
+	}
+	if !isRef {
+		return honest
+	}
+	s.cross = nil
+	s.p.Query("long."+c.child, dns.TypeA, l3.Flags{CD: c.cd, DO: true})
+	if d := s.w.Delegation(c.child); d != nil {
+		d.NSTTL, d.DSTTL = c.ttl, c.ttl
+		for _, rr := range d.DS {
+			rr.Header().Ttl = c.ttl
+		}
+		for _, rr := range d.Glue {
+			rr.Header().Ttl = c.ttl
+		}
+	}
+	if k := i.kids[c.child]; k != nil {
+		k.nsTTL, k.dsTTL = c.ttl, c.ttl
+	}
+	req := new(dns.Msg)
+	req.SetQuestion(q.Name, q.Qtype)
+	req.Id = honest.Id
+	if o := honest.IsEdns0(); o != nil {
+		req.SetEdns0(4096, o.Do())
+	}
+	return i.srv.Honest(req)
+}
+
+type crossSpec struct {
+	from  *inst
+	child string
+	ttl   uint32
+	cd    bool
 }
 
 func (s *scenario) observe(from *inst, m *dns.Msg) {
@@ -488,7 +541,13 @@ func execNew(f []string) vlib.Res {
 	}})
 	s.t0 = time.Now()
 	cur = s
-	return vlib.Res{Impl: "ok", Oracle: "ok"}
+	tags := "l3,world"
+	for _, k := range []string{"k", "d", "sec", "pf", "qmin", "oob"} {
+		if v, ok := m[k]; ok {
+			tags += "," + k + v
+		}
+	}
+	return vlib.Res{Impl: "ok", Oracle: "ok", Tags: tags}
 }
 
 // quiesce waits until no background refresh is queued or running, so that
@@ -664,6 +723,49 @@ func (s *scenario) audit() string {
 					fail(fmt.Sprintf("FAIL sig=l3/lease/descendant-outlives-ancestor/ceiling-reanchored zone=%s ancestor=%s by=%s", ez, az, d))
 				} else {
 					fail(fmt.Sprintf("FAIL sig=l3/lease/descendant-outlives-ancestor zone=%s ancestor=%s by=%s", ez, az, d))
+				}
+			}
+		}
+	}
+	// exact, sequential pipeline only: a live answer-cache entry is cut no later than the
+	// live delegation (same CD partition) of every zone its records were learned through
+	if s.prefetch == 0 {
+		for _, ce := range cache.VerifC08CacheEntries(s.p.Cache) {
+			if ce.Msg == nil {
+				continue
+			}
+			end := ce.Stored.Add(ce.TTL)
+			if !ce.CutUntil.IsZero() && ce.CutUntil.Before(end) {
+				end = ce.CutUntil
+			}
+			if !time.Now().Before(end) {
+				continue
+			}
+			lin := 0
+			if ce.CD {
+				lin = 1
+			}
+			seen := map[*inst]bool{}
+			for _, sec := range [][]dns.RR{ce.Msg.Answer, ce.Msg.Ns} {
+				for _, rr := range sec {
+					o, _ := s.origin(rr)
+					for a := o; a != nil; a = a.parent {
+						if seen[a] {
+							continue
+						}
+						seen[a] = true
+						for _, d := range entries {
+							if lcn(d.Zone) != a.name || bucket(d) != lin || !time.Now().Before(d.ExpiresAt) {
+								continue
+							}
+							switch {
+							case ce.CutUntil.IsZero():
+								fail(fmt.Sprintf("FAIL sig=l3/cache/answer-without-cut q=%s/%d learned-through=%s", lcn(ce.Question.Name), ce.Question.Qtype, a.name))
+							case ce.CutUntil.After(d.ExpiresAt):
+								fail(fmt.Sprintf("FAIL sig=l3/cache/answer-cut-outlives-delegation q=%s/%d learned-through=%s by=%s", lcn(ce.Question.Name), ce.Question.Qtype, a.name, ce.CutUntil.Sub(d.ExpiresAt)))
+							}
+						}
+					}
 				}
 			}
 		}
@@ -1046,6 +1148,35 @@ func execL3(f []string) vlib.Res {
 			i.z.Add(fmt.Sprintf("%s %d IN NS nsx.%s", i.name, hugeTTL, i.name), fmt.Sprintf("nsx.%s %d IN A %s", i.name, hugeTTL, i.srv.IP))
 		}
 		return vlib.Res{Impl: "ok", Oracle: s.finish("ok"), Tags: "l3"}
+	case "qcross":
+		// l3 qcross <zone> <newTTL> [cd]: a question below <zone> is asked while <zone> is not cached;
+		// see crossOver. The deepest chain zone's www name is the question.
+		v := s.current(f[2])
+		if v == nil || v.idx == 0 || v.idx > 3 || len(f) < 4 {
+			return vlib.Res{Impl: "nozone", Oracle: "-"}
+		}
+		if s.p.Cfg.QnameMinLevel != 0 {
+			// minimised, both questions ask the parent the same thing and singleflight would
+			// merge them into ONE concurrent pair of descents: not the sequential crossing meant here
+			return vlib.Res{Impl: "noqmin", Oracle: "-"}
+		}
+		from := v.parent
+		if from == nil {
+			from = s.root
+		}
+		s.quiesce()
+		cd := len(f) > 4 && f[4] == "cd"
+		s.cross = &crossSpec{from: from, child: v.name, ttl: uint32(vlib.AtoU64(f[3])), cd: cd}
+		g := []string{"l3", "q", "www." + s.names[len(s.names)-1], "A", "do"}
+		if cd {
+			g = append(g, "cd")
+		}
+		res := execQuery(s, g)
+		if s.cross != nil {
+			s.cross = nil
+			res.Impl += " nocross"
+		}
+		return res
 	case "qrace":
 		// l3 qrace <zone> [cd]: ask the zone's (old) servers for sr.<zone>; they let their own
 		// lease run out and then answer with a self-referral carrying a one-week TTL.
@@ -1186,7 +1317,7 @@ func genL3Case(r *vlib.R, n int, emit func(string)) int {
 			vic = 2
 		}
 	case 5: // strictly sequential pipeline: the exact ancestor comparison applies
-		pf = 0
+		pf, qmin = 0, 0
 	case 6: // the 12 h ceiling decides
 		nsT[vic-1], dsT[vic-1] = vlib.Pick(r, []int{43199, 43200}), 43200
 		attl, neg = 86400, 86400
@@ -1208,8 +1339,8 @@ func genL3Case(r *vlib.R, n int, emit func(string)) int {
 		}
 		return strings.Join(p, ",")
 	}
-	e(fmt.Sprintf("l3 new d=%d sec=%d ns=%s ds=%s sg=%s attl=%d neg=%d pf=%d qmin=%d oob=%d",
-		depth, secI, join(nsT), join(dsT), sg, attl, neg, pf, qmin, oob))
+	e(fmt.Sprintf("l3 new d=%d sec=%d ns=%s ds=%s sg=%s attl=%d neg=%d pf=%d qmin=%d oob=%d k=%d",
+		depth, secI, join(nsT), join(dsT), sg, attl, neg, pf, qmin, oob, kind))
 	V := chainNames[vic-1]
 	deepest := chainNames[depth-1]
 	cdMode := 2 // 0 never, 1 always, 2 sometimes
@@ -1280,6 +1411,10 @@ func genL3Case(r *vlib.R, n int, emit func(string)) int {
 	// warm up: learn the whole chain and data at every level
 	if kind == 0 {
 		cdMode = 0
+	}
+	if pf == 0 && qmin == 0 && kind != 0 && r.Chance(2, 3) {
+		// cold start with two questions crossing at the victim's referral
+		e(fmt.Sprintf("l3 qcross %s %d%s", V, vlib.Pick(r, []int{300, 7200, 43200, 172800}), vlib.Pick(r, []string{"", "", " cd"})))
 	}
 	e("l3 q www." + deepest + " A" + fl())
 	probes()
